@@ -2797,6 +2797,11 @@ func (self *TextServerProtocol) commandHandlerPush(_ *TextServerProtocol, args [
 		db = self.slock.GetOrNewDB(lockCommand.DbId)
 	}
 	err = db.Lock(self, lockCommand, lockCommand.Flag&protocol.LOCK_FLAG_FROM_AOF)
+	select {
+	case lockCommandResult := <-self.lockWaiter:
+		self.freeCommandResult, lockCommandResult.Data = lockCommandResult, nil
+	default:
+	}
 	if err != nil {
 		return self.stream.WriteBytes(self.parser.BuildResponse(false, "ERR Lock Error", nil))
 	}
